@@ -34,8 +34,9 @@ class RemoveLiteralStatements(SuiteTransformer):
         return self.visit(node)
 
     def visit_Module(self, node):
-        for binding in node.bindings:
-            if binding.name == '__doc__':
+        for n in ast.walk(node):
+            if isinstance(n, ast.Name) and n.id == '__doc__':
+                # The module uses its own docstring, so keep the literal statements of the module body
                 node.body = [self.visit(a) for a in node.body]
                 return node
 
